@@ -185,14 +185,14 @@ proof fn recvd_push(s: Seq<Event>, e: Event) ensures recvd_bytes(s.push(e)) == r
 
 // ---------- build.rs ----------
 //@ extract build.rs fn wait_for_sources_ticket
-//@ props C01 C02 C03 C04 C05 C17
+//@ props C01 C02 C03 C04 C05 C06 C17
 //@ ret res
 //@ param Tracked(net): Tracked<&mut Net>
 //@ addarg * /receiver\.recv/ Tracked(net)
 //@ retype 1 /let mut tickets = vec!\[\];/ => let mut tickets : Vec<Ticket> = Vec::new();
 //@ spec
     ensures extends(old(net).log, final(net).log),
-        // every receiver is drained exactly once, in order, even after a cancel was seen (C05: no sender is left with a closed channel)   //# O-E-recv-all [C03,C05]
+        // every receiver is drained exactly once, in order, even after a cancel was seen (C05: no sender is left with a closed channel)   //# O-E-recv-all [C03,C05,C06]
         !(res matches Err(BuildError::ReceiverError(_))) ==> is_recvs(ext(old(net).log, final(net).log), recv_ids(receiver_vec@), receiver_vec@.len() as int),
         res matches Err(BuildError::ReceiverError(_)) ==> exists|k: int| 0 <= k < receiver_vec@.len() && is_recvs(ext(old(net).log, final(net).log), recv_ids(receiver_vec@), k),
         // Ok only if no source cancelled; the ticket is the hash of the received hashes in receiver order                              //# O-E-sources-ticket [C01,C03]
